@@ -261,6 +261,12 @@ func (c *c31Runner) Step(t []string, o *Oracle) string {
 			return "err"
 		}
 		o.Check(n == len(data), "secure-write-short", "Write returned %d for %d bytes", n, len(data))
+		switch {
+		case len(data) >= 65536:
+			o.Count("write-ge-65536")
+		case len(data) == 65535:
+			o.Count("write-65535")
+		}
 		c.sent = append(c.sent, data...)
 		fr := c.link.frames[k:]
 		for i := range fr {
@@ -584,6 +590,9 @@ func c31Pipe(t []string, o *Oracle) string {
 	o.Check(bytes.Equal(got, data) && st == "eof", "secure-stream-not-faithful",
 		"net.Pipe %s: wrote %d bytes, read %d with %d-byte buffers, status %s", t[1], len(data), len(got), bsz, st)
 	o.Count("pipe")
+	if wsz >= 65536 {
+		o.Count("pipe-write-ge-65536")
+	}
 	if !bytes.Equal(got, data) {
 		return fmt.Sprintf("differs %d", len(got))
 	}
@@ -606,6 +615,9 @@ func c31GenKey(g *Gen) (string, []byte) {
 }
 
 func c31WriteSize(g *Gen) int {
+	if g.Intn(150) == 0 {
+		return g.Pick(65535, 65536, 65537, 131072, 65536+g.Intn(70000))
+	}
 	return g.Pick(0, 1, 2, 5, 100, 1023, 1024, 1025, 2047, 2048, 2049, 3000, g.Intn(64), g.Intn(64), g.Intn(1500))
 }
 
@@ -613,7 +625,25 @@ func c31BufSize(g *Gen) int {
 	return g.Pick(1, 1, 2, 3, 7, 100, 512, 1023, 1024, 1025, 4096, 1+g.Intn(40), 1+g.Intn(1100), 0)
 }
 
+// c31BigSession: one single Write at/over the uint16 limit of the frame length
+// header (the code cuts at secureConnFrameSize = 1024, far below it).
+func c31BigSession(g *Gen, n int) {
+	g.Emit("reset")
+	suite, key := c31GenKey(g)
+	g.Emit("init %s %s", suite, hx(key))
+	g.Emit("w %s", hx(g.Bytes(n)))
+	if g.Intn(2) == 0 {
+		g.Emit("r %d", c31BufSize(g))
+	}
+	g.Emit("fin %d", g.Pick(512, 1024, 4096, 70000, 1+g.Intn(2000)))
+}
+
 func c31Gen(g *Gen) {
+	// every run (quick included): single writes of 65535 / >= 65536 bytes, also over net.Pipe
+	c31BigSession(g, 65535)
+	c31BigSession(g, g.Pick(65536, 65537, 131072, 65536+g.Intn(70000)))
+	g.Emit("reset")
+	g.Emit("pipe %s %s %d %d", "chacha", hx(g.Bytes(32)), g.Pick(65536, 65537, 131072), g.Pick(1000, 4096, 70000))
 	for i := 0; i < g.N; i++ {
 		g.Emit("reset")
 		switch r := g.Intn(100); {
